@@ -64,6 +64,9 @@ func runC16(r *Run) {
 	for h := 0; h < n/4; h++ {
 		c16ErrorBurst(r, h)
 	}
+	for h := 0; h < n/4; h++ {
+		c16SilentSchema(r, h)
+	}
 }
 
 // c16FailedAttempt: a reconnect attempt that fails half-way. The client has two monitors. Its connection
